@@ -22,6 +22,9 @@ import (
 
 var toks []*tpl.Token // token i has Pos i+1
 
+// tokIndex: tokens of real match results (rendered by index, like the synthetic ones)
+var tokIndex = map[*tpl.Token]int{}
+
 func init() {
 	kinds := []token.Token{token.ADD, token.SUB, token.MUL, token.QUO, token.COMMA, token.IDENT, token.INT, token.SEMICOLON}
 	for i := 0; i < 40; i++ {
@@ -36,6 +39,9 @@ func show(v any) string {
 	case nil:
 		return "N"
 	case *tpl.Token:
+		if i, ok := tokIndex[x]; ok {
+			return "T" + strconv.Itoa(i)
+		}
 		return "T" + strconv.Itoa(int(x.Pos)-1)
 	case tplm.Leaf:
 		return "L" + strconv.Itoa(int(x))
@@ -242,9 +248,8 @@ func guard(f func() string) (s string) {
 var wrap = func(v any) any { return []any{tplm.Leaf(9), v} }
 var mkOp = func(op *tpl.Token, x, y any) any { return []any{op, x, y} }
 
-func runHelper(o *vh.Out, op string, in []any, n *nest) {
-	caseLine := "tplh\t" + op + "\t" + show(in)
-	var impl string
+// callHelper applies one helper of tpl/tpl.go to `in` and renders what it returns / visits.
+func callHelper(op string, in []any) (impl string) {
 	switch op {
 	case "list":
 		impl = guard(func() string { return "ok " + show(tpl.List(in)) })
@@ -269,6 +274,171 @@ func runHelper(o *vh.Out, op string, in []any, n *nest) {
 	case "bexr":
 		impl = guard(func() string { return "ok " + show(tpl.BinaryExpr(true, in)) })
 	}
+	return
+}
+
+// ---------------------------------------------------------------------------
+// sequences of helpers on the SAME result tree: the helpers must not change the match result
+
+// recap deep-copies a tree; every list gets `spare(len)` unused capacity behind its elements.
+func recap(v any, spare func(n int) int) any {
+	l, ok := v.([]any)
+	if !ok {
+		return v
+	}
+	if l == nil {
+		return []any(nil)
+	}
+	out := make([]any, len(l), len(l)+spare(len(l)))
+	for i, e := range l {
+		out[i] = recap(e, spare)
+	}
+	return out
+}
+
+// sameTree: identical structure, identical leaves (tokens/idents by pointer).
+func sameTree(a, b any) bool {
+	la, oka := a.([]any)
+	lb, okb := b.([]any)
+	if oka != okb {
+		return false
+	}
+	if !oka {
+		return a == b
+	}
+	if len(la) != len(lb) {
+		return false
+	}
+	for i := range la {
+		if !sameTree(la[i], lb[i]) {
+			return false
+		}
+	}
+	return true
+}
+
+// runSeq applies the helpers `ops` one after the other to in = whole[:k] (k == len(whole):
+// the result itself; k < len(whole): a prefix of a longer sequence result whose later fields
+// live in the spare capacity of `in`).  After every call the whole tree must be unchanged.
+func runSeq(o *vh.Out, ops []string, whole []any, k int, how string) {
+	in := whole[:k]
+	before := recap(whole, func(int) int { return 0 }).([]any)
+	caseLine := "tplh2\t" + strings.Join(ops, ",") + "\t" + show(in)
+	outs := make([]string, len(ops))
+	first := map[string]string{}
+	for i, op := range ops {
+		outs[i] = callHelper(op, in)
+		if !sameTree(whole, before) {
+			o.Oracle("helper-mutates-input", caseLine,
+				fmt.Sprintf("after call %d (%s) of %v on the same result (%s, len %d cap %d) the result tree is %s, was %s",
+					i+1, op, ops, how, len(in), cap(in), show(whole), show(before)))
+			break
+		}
+		if prev, ok := first[op]; ok && prev != outs[i] {
+			o.Oracle("helper-not-repeatable", caseLine, fmt.Sprintf("%s returned %s, then %s on the same result", op, prev, outs[i]))
+		}
+		first[op] = outs[i]
+	}
+	o.Count("seq_" + how)
+	o.Case(caseLine, strings.Join(outs, " ; "), k >= 2)
+}
+
+var groupA = []string{"list", "listop", "rangeop", "bopnr", "bopr"}
+var groupB = []string{"bexnr", "bexr"}
+
+// seqCases: every ordered pair (h1, h2) of a group as h1, h2, h1 on one tree, in three memory
+// layouts: exact capacity (what gSequence.Match allocates), spare capacity, prefix of a longer list.
+func seqCases(o *vh.Out, r *vh.Rand, group []string, tree []any) {
+	h1 := group[r.Intn(len(group))]
+	h2 := group[r.Intn(len(group))]
+	ops := []string{h1, h2, h1}
+	switch r.Intn(3) {
+	case 0:
+		w := recap(tree, func(int) int { return 0 }).([]any)
+		runSeq(o, ops, w, len(w), "exact-capacity")
+	case 1:
+		w := recap(tree, func(n int) int { return 1 + r.Intn(3) }).([]any)
+		runSeq(o, ops, w, len(w), "spare-capacity")
+	default:
+		w := recap(tree, func(int) int { return 0 }).([]any)
+		if len(w) < 2 {
+			runSeq(o, ops, w, len(w), "exact-capacity")
+			return
+		}
+		// rule = R *(sep R) tail…: the helper gets self[:2], tail fields follow in the same array
+		long := make([]any, 0, len(w)+3)
+		long = append(long, w...)
+		for j := r.Intn(3) + 1; j > 0; j-- {
+			long = append(long, toks[r.Intn(len(toks))])
+		}
+		runSeq(o, ops, long, 2, "prefix-of-longer-result")
+	}
+}
+
+// realListTrees: results of the real matcher for `doc = INT % ","` (real slice capacities).
+func realListTrees() (trees [][]any) {
+	c := tplm.Compile("doc = INT % \",\"\n", nil)
+	if c.Err != nil {
+		return nil
+	}
+	for n := 1; n <= 5; n++ {
+		ws := make([]string, n)
+		for i := range ws {
+			ws[i] = strconv.Itoa(11 * (i + 1))
+		}
+		ms, res, err := c.C.Match("", strings.Join(ws, ", "), nil)
+		if err != nil {
+			continue
+		}
+		for i, t := range ms.Toks {
+			tokIndex[t] = i
+		}
+		if l, ok := res.([]any); ok {
+			trees = append(trees, l)
+		}
+	}
+	return
+}
+
+// realSeq: helper sequences directly on results of the real matcher (one fresh Match per sequence).
+func realSeq(o *vh.Out) {
+	c := tplm.Compile("doc = INT % \",\"\n", nil)
+	c2 := tplm.Compile("doc = INT *(\",\" INT) \";\"\n", nil)
+	if c.Err != nil || c2.Err != nil {
+		return
+	}
+	for n := 1; n <= 5; n++ {
+		ws := make([]string, n)
+		for i := range ws {
+			ws[i] = strconv.Itoa(11 * (i + 1))
+		}
+		text := strings.Join(ws, ", ")
+		for _, h1 := range groupA {
+			for _, h2 := range groupA {
+				if ms, res, err := c.C.Match("", text, nil); err == nil {
+					for i, t := range ms.Toks {
+						tokIndex[t] = i
+					}
+					if l, ok := res.([]any); ok {
+						runSeq(o, []string{h1, h2, h1}, l, len(l), "real-match")
+					}
+				}
+				if ms, res, err := c2.C.Match("", text+";", nil); err == nil {
+					for i, t := range ms.Toks {
+						tokIndex[t] = i
+					}
+					if l, ok := res.([]any); ok && len(l) == 3 {
+						runSeq(o, []string{h1, h2, h1}, l, 2, "real-match-prefix")
+					}
+				}
+			}
+		}
+	}
+}
+
+func runHelper(o *vh.Out, op string, in []any, n *nest) {
+	caseLine := "tplh\t" + op + "\t" + show(in)
+	impl := callHelper(op, in)
 	if n != nil { // well-formed: compare with the expectation computed from the structure
 		var rs []any
 		rs = append(rs, n.x0.value())
@@ -519,6 +689,21 @@ func main() {
 			n = genNest(rr, depth, expr)
 		}
 		in := n.value().([]any)
+		if i%3 == 2 { // a sequence of helpers on the same tree
+			group := groupA
+			if expr {
+				group = groupB
+			}
+			tree := in
+			if rr.Chance(25) {
+				tree = damageDeep(rr, in)
+				if expr {
+					tree = noLeaf(tree).([]any)
+				}
+			}
+			seqCases(o, rr, group, tree)
+			continue
+		}
 		if rr.Chance(30) {
 			bad := damage(rr, in)
 			if op == "bopr" || op == "bexr" {
@@ -532,6 +717,16 @@ func main() {
 			runHelper(o, op, in, n)
 		}
 	}
+	for _, tree := range realListTrees() {
+		for _, h1 := range groupA {
+			for _, h2 := range groupA {
+				// a fresh deep copy would lose the real capacities: re-match instead of copying
+				w := recap(tree, func(n int) int { return cap(tree) - len(tree) }).([]any)
+				runSeq(o, []string{h1, h2, h1}, w, len(w), "like-real-match")
+			}
+		}
+	}
+	realSeq(o)
 	c := tplm.Compile(calcGrammar, calcProcs())
 	if c.Err != nil {
 		o.Case("tplc-compile", "calculator grammar does not compile: "+c.Err.Error(), false)
